@@ -18,7 +18,10 @@ def main_labels(run):
     """Goroutines of an earlier scenario may still hit a hook or two after the next scenario's tracer is installed and so
     take the first label numbers; the connection objects of *this* run are the ones with (by far) the most events."""
     import collections
-    cnt = collections.Counter(e["c"] for e in run["events"])
+    # a pinger that outlives its scenario (the client's pinger of a redialled connection is not stopped by the loop's
+    # deferred stopPings, which was bound to the first connection's: noted in DESIGN.md, outside the listed properties)
+    # keeps emitting ping.send / write.locked for ever: such events do not make a connection "this run's"
+    cnt = collections.Counter(e["c"] for e in run["events"] if e["p"] not in ("ping.send", "write.locked"))
     def best(prefix, default):
         c = [(n, l) for l, n in cnt.items() if l.startswith(prefix)]
         return max(c)[1] if c else default
@@ -403,6 +406,65 @@ def validate_forwarder(res, runs, name):
         res.mismatches.append({"family": "conn/forwarder", "error": "forwarder cases did not evaluate", "log": out[-1500:]})
         return [], 0, 0
     bad = [(r, conn, int(i), evs) for (d, i), (r, conn, evs) in zip(pairs, items) if int(d) != 0]
+    return bad, len(items), sum(len(e) for _, _, e in items)
+
+
+RP_EV = {"reader.msg": "RMsg", "reader.err": "RErr", "frame.enq": "FEnq", "frame.err": "FErr", "loop.readerr": "LReadErr",
+         "exec.take": "XTake", "redial.swap": "Rearm"}
+PHEADER = "From Coq Require Import List Arith Bool.\nImport ListNotations.\nFrom JR Require Import ReadPipe.\n"
+
+
+def readpipe_cases(run):
+    """reader-pipeline events of every connection object of this run that read at least one frame (client and server side)"""
+    per = {}
+    for e in run["events"]:
+        c, p = e["c"], e["p"]
+        if not c.startswith(("ws-client#", "ws-server#")):
+            continue
+        if p in RP_EV:
+            per.setdefault(c, []).append(RP_EV[p])
+        elif p == "loop.incoming":
+            per.setdefault(c, []).append("LIncoming %s" % ("true" if (e["a"] or [False])[0] else "false"))
+    # a connection object whose loop has seen the failure and that was not re-armed by a redial is dead; the allocator may
+    # hand its address (= its label) to the next connection object: split there
+    out = {}
+    for c, evs in per.items():
+        part, k, reported = [], 0, False
+        for ev in evs:
+            if reported and ev in ("RMsg", "RErr"):
+                out["%s/%d" % (c, k)] = part
+                part, k, reported = [], k + 1, False
+            if ev in ("LReadErr", "LIncoming false"):
+                reported = True
+            elif ev == "Rearm":
+                reported = False
+            part.append(ev)
+        out["%s/%d" % (c, k)] = part
+    # objects of an earlier scenario still winding down show up with a truncated life (no first frame): keep those that
+    # start like a fresh connection
+    return {c: evs for c, evs in out.items() if evs and evs[0] in ("RMsg", "RErr") and "FEnq" in evs}
+
+
+def validate_readpipe(res, runs, name):
+    import re
+    items = [(r, c, evs) for r in runs for c, evs in readpipe_cases(r).items() if len(evs) <= 20000]
+    if not items:
+        return [], 0, 0
+    groups = [items[i::8] for i in range(8)]
+    groups = [g for g in groups if g]
+    jobs = [("cases_%sp_%d" % (name, gi), PHEADER + "Definition cases : list (list rev_) := [\n%s\n].\nDefinition D := Eval vm_compute in map (fun es => rrun_diag rp0 es 0) cases.\nPrint D.\n"
+             % ";\n".join("[" + "; ".join(e) + "]" for _, _, e in g)) for gi, g in enumerate(groups)]
+    bad = []
+    for (nm, rc, out), g in zip(vlib.run_cases_parallel(jobs), groups):
+        m = re.search(r"D\s*=\s*(.*?)\n\s*:\s", out, flags=re.S) if rc == 0 else None
+        toks = re.findall(r"None|Some\s+(\d+)", m.group(1)) if m else None
+        vals = re.findall(r"None|Some\s+\d+", m.group(1)) if m else None
+        if vals is None or len(vals) != len(g):
+            res.mismatches.append({"family": "conn/readpipe", "error": "cases file %s did not evaluate" % nm, "log": out[-1500:]})
+            continue
+        for v, (r, c, evs) in zip(vals, g):
+            if v != "None":
+                bad.append((r, c, int(v.split()[1]), evs))
     return bad, len(items), sum(len(e) for _, _, e in items)
 
 
